@@ -18,10 +18,15 @@ def first_order(s: float, k: float) -> float:
     return k * s
 
 
+def ramp(time: float, k: float) -> float:
+    return k * time
+
+
 def param_names(lin: dict) -> list[str]:
     names = [f"kin{i}" for i in sorted(lin["influx"], key=int)]
     names += [f"kd{i}" for i in sorted(lin["deg"], key=int)]
     names += [f"kc{i}_{j}" for i, j, _ in lin["conv"]]
+    names += [f"kt{i}" for i in sorted(lin.get("ramp", {}), key=int)]
     return names
 
 
@@ -29,6 +34,7 @@ def params_of(lin: dict) -> dict[str, float]:
     p = {f"kin{i}": k for i, k in lin["influx"].items()}
     p.update({f"kd{i}": k for i, k in lin["deg"].items()})
     p.update({f"kc{i}_{j}": k for i, j, k in lin["conv"]})
+    p.update({f"kt{i}": k for i, k in lin.get("ramp", {}).items()})
     return p
 
 
@@ -52,6 +58,9 @@ def build(lin: dict):
         m.add_reaction(f"vd{i}", first_order, args=[f"x{i}", f"kd{i}"], stoichiometry={f"x{i}": -1})
     for i, j, _ in lin["conv"]:
         m.add_reaction(f"vc{i}_{j}", first_order, args=[f"x{i}", f"kc{i}_{j}"], stoichiometry={f"x{i}": -1, f"x{j}": 1})
+    # time-dependent influx k * time (x' = A x + b + c t): optional
+    for i in sorted(lin.get("ramp", {}), key=int):
+        m.add_reaction(f"vt{i}", ramp, args=["time", f"kt{i}"], stoichiometry={f"x{i}": 1})
     return m
 
 
@@ -70,13 +79,29 @@ def A_b(lin: dict, p: dict[str, float]) -> tuple[np.ndarray, np.ndarray]:
     return A, b
 
 
-def propagate(A: np.ndarray, b: np.ndarray, y: np.ndarray, dt: float) -> np.ndarray:
+def ramp_vec(lin: dict, p: dict[str, float]) -> np.ndarray:
+    c = np.zeros(lin["n"])
+    for i in lin.get("ramp", {}):
+        c[int(i)] += p[f"kt{i}"]
+    return c
+
+
+def propagate(A: np.ndarray, b: np.ndarray, y: np.ndarray, dt: float, c: np.ndarray | None = None, t0: float = 0.0) -> np.ndarray:
+    """x' = A x + b (+ c * time): state after dt, started at absolute time t0 (augmented matrix exponential)."""
     n = len(y)
-    M = np.zeros((n + 1, n + 1))
+    if c is None or not np.any(c):
+        M = np.zeros((n + 1, n + 1))
+        M[:n, :n] = A
+        M[:n, n] = b
+        E = expm(M * dt)
+        return E[:n, :n] @ y + E[:n, n]
+    M = np.zeros((n + 2, n + 2))
     M[:n, :n] = A
-    M[:n, n] = b
-    E = expm(M * dt)
-    return E[:n, :n] @ y + E[:n, n]
+    M[:n, n] = c
+    M[:n, n + 1] = b
+    M[n, n + 1] = 1.0
+    z = np.concatenate([y, [t0, 1.0]])
+    return (expm(M * dt) @ z)[:n]
 
 
 def steady_state(A: np.ndarray, b: np.ndarray) -> np.ndarray:
